@@ -1,9 +1,35 @@
 from common import T_COMMON
 
 CFG = dict(
-    theorems=["vertices_check_sound", "indices_check_sound", "winding_check_sound", "inCircleDet_eq", "inCircleDet_on_circle", "orient_smul", "inCircleDet_smul", "inCircle_neg_of_inside", "circumcentre_exists", "inCircle_iff", "delaunay_check_raw", "delaunay_check_sound", "sep_key", "sepEdge_sound", "overlap_check_sound"],
+    theorems=[
+        # checkers evaluated by the driver on the implementation's output
+        "vertices_check_sound", "indices_check_sound", "winding_check_sound",
+        "delaunay_check_raw", "delaunay_check_sound", "sep_key", "sepEdge_sound", "overlap_check_sound",
+        "c20_checkers_sound",
+        # the in-circle determinant of the source
+        "inCircleDet_eq", "inCircleDet_on_circle", "inCircle_neg_of_inside", "circumcentre_exists", "inCircle_iff",
+        "orient_smul", "inCircleDet_smul",
+        # the model of the algorithm
+        "bw_vertices_are_inputs", "bw_indices_lt", "fanTri_not_ccw", "loop_inv", "bw_not_ccw",
+        "bw_cw_of_not_collinear", "bw_all_indices_lt", "superTriangle_cw", "pointFn_input", "pointFn_super",
+        "bowyerWatson_spec", "bowyerWatson_not_ccw", "bw_order_independent_partial",
+    ],
     streams=[dict(name="c20", n=dict(quick=240, thorough=6000))],
-    trusted=T_COMMON,
-    residue=[],
-    assumptions=[],
+    trusted=T_COMMON + [
+        "Driver/C20.lean: exact decoding of float64 bit patterns to m*2^e and scaling of one case to a common power of two "
+        "(the checkers are run at Int; orient_smul / inCircleDet_smul justify the scaling); core Rat for the c20.bw model lines",
+        "Model/Delaunay.lean is a hand transcription of bowyer_watson.go (tied by the c20.bw correspondence on small-integer inputs, "
+        "where Go's float64 predicates are exact)"],
+    residue=[
+        "MAIN CLAIM NOT A THEOREM: that Bowyer-Watson with the finite super-triangle yields a same-winding, positive-area, non-overlapping, "
+        "empty-circumcircle triangulation for EVERY point set in general position is kept as `def C20_full : Prop` (Props/C20.lean) and is not proved. "
+        "The winding / positive-area / non-overlap / Delaunay / vertex / index clauses are decided per run by the verified checkers "
+        "(c20_checkers_sound, vertices_check_sound) applied to the implementation's OUTPUT in exact arithmetic: sound per input, sampled over inputs",
+        "Go evaluates orient / inCircle in float64 (rounding); all theorems are over exact arithmetic (ordered rings/fields). The oracle judges the float "
+        "implementation's output against the exact predicates, so a float sign error on a near-degenerate input would show up as an oracle failure; generators keep predicates well-conditioned",
+        "coverage of the convex hull is not part of C20 and not checked (a finite super-triangle may drop thin hull triangles; 3 nearly collinear points give zero triangles)",
+        "bw_order_independent_partial covers the bad-triangle set only; independence of the final triangle set from map order is observed (implementation with random Go map order vs model with fixed order on c20.bw lines), not proved",
+        "proved for the model only under positive width (superTriangle_cw); inputs of zero width (all x equal) are not in general position",
+    ],
+    assumptions=["float64 arithmetic in Go on amd64 is IEEE-754 without FMA contraction; for integer inputs in [0,64] all intermediate values of the predicates are integers/half-integers below 2^53, hence exact"],
 )
